@@ -74,7 +74,7 @@ func (a *ledgerAudit) audit(where string) {
 			}
 			continue
 		}
-		cachingOff := !p.Cfg.CacheSK && !p.Cfg.CacheIK && !p.Cfg.SharedIK
+		cachingOff := !p.Cfg.CacheSK && !p.Cfg.CacheIK // a shared IK cache is ignored by policy when IK caching is off
 		perFP := map[string]int{}
 		nSK, nIK := 0, 0
 		for _, s := range live {
@@ -122,7 +122,7 @@ func (a *ledgerAudit) audit(where string) {
 			n := perFP[fp]
 			name := idx[fp]
 			limit := 1
-			if !strings.HasPrefix(name, "_SK_") && !p.Cfg.SharedIK {
+			if !strings.HasPrefix(name, "_SK_") && !p.Cfg.SharedIKCache() {
 				limit = 0
 				for part, k := range openByPart {
 					if strings.HasPrefix(name, w.IKID(part)+"@") {
@@ -153,7 +153,7 @@ func (a *ledgerAudit) audit(where string) {
 		}
 		if bounded(p.Cfg.IKPolicy) {
 			capn := p.Cfg.IKCap
-			if !p.Cfg.SharedIK {
+			if !p.Cfg.SharedIKCache() {
 				capn *= nOpen
 			}
 			if nIK > capn {
